@@ -159,7 +159,16 @@ def gen_database(r, nasty=0.0, size=None, allow_props=None, renderers=(0, 1), db
             ixop = Op(13, V('subjects', subs), g.ident(['idx', 'my index']) if r.random() < 0.4 else None,
                       r.random() < 0.3, r.choice(INDEX_TYPES) if r.random() < 0.3 else None,
                       r.random() < 0.2, g.note_arg(0.2), g.otext(0.2))
-            if any(repr(ixop) == repr(g.ops[j]) for j in idxs):
+            def isig(o_):
+                subs_ = tuple((k_, g.ops[v_].args[0]) if k_ == 2 else (k_, v_) for k_, v_ in o_.args[0].val)
+                def norm_(a_):
+                    if isinstance(a_, V) and a_.kind == 'obj':
+                        return ('str', g.ops[a_.val].args[0])            # a Note object counts by its text
+                    if isinstance(a_, V) and a_.kind in ('none',):
+                        return ('str', '')                                # Note(None) has the empty text
+                    return (a_.kind, a_.val) if isinstance(a_, V) else a_
+                return (subs_,) + tuple(norm_(a_) for a_ in o_.args[1:])
+            if any(isig(ixop) == isig(g.ops[j]) for j in idxs):
                 continue      # an index equal to an earlier one of the same table: delete_index(obj) would hit D23 (reported by C09)
             ix = g.emit(ixop)
             g.emit(Op(52, t, ix))
